@@ -80,6 +80,56 @@ def explore_config(prop: str, workers: int, max_fails: int, max_dev: int, max_de
     acc.count("configs")
 
 
+LONG_ALPHABET: List[Dict[str, Any]] = [
+    {"die": [], "sig": None, "crash": []},
+    {"die": [], "sig": "HUP", "crash": []},
+    {"die": [], "sig": "FILE", "crash": []},
+    {"die": [0], "sig": None, "crash": []},
+    {"die": [], "sig": "INT", "crash": []},
+]
+
+
+def explore_long(prop: str, workers: int, max_fails: int, depth: int, acc: Acc) -> None:
+    """Every history up to `depth` ticks over a 5-letter alphabet, WITHOUT state matching.
+
+    The BFS above merges histories on the canonical tick-boundary state, which cannot contain state the
+    manager hides from the harness (a counter in a closure, an attribute the canonical form does not
+    read). This pass is the guard against that: long repetitions of the same event are run as they are.
+    """
+    prefix = prop + ":"
+    import time as _time
+
+    t0 = _time.time()
+    stack: List[List[Dict[str, Any]]] = [[c] for c in reversed(LONG_ALPHABET)]
+    while stack:
+        h = stack.pop()
+        mon = Monitor()
+        env = run_history(workers, max_fails, h, mon)
+        acc.transitions += 1
+        acc.paths += 1
+        acc.count("long_histories")
+        hit = False
+        for key, msg in mon.violations:
+            if key.startswith(prefix):
+                hit = True
+                acc.violation(
+                    key[len(prefix):],
+                    f"{msg} | workers={workers} max_fails={max_fails} history={json.dumps(jsonable(_brief(h)))}",
+                    {"workers": workers, "max_fails": max_fails, "history": h, "key": key},
+                )
+        if env.returned != "running":
+            acc.outcome(("long", workers, max_fails, env.returned if isinstance(env.returned, str) else env.returned[0], len(h)))
+            continue
+        if hit or len(h) >= depth:
+            continue
+        if _time.time() - t0 > 200:
+            acc.cap(f"time budget exhausted in the long-history pass for workers={workers} max_fails={max_fails}")
+            break
+        for c in reversed(LONG_ALPHABET):
+            stack.append(h + [c])
+    acc.maximum("long_history_depth", depth)
+
+
 def _brief(h: List[Dict[str, Any]]) -> List[Dict[str, Any]]:
     return [{k: v for k, v in t.items() if v not in (None, [], 0) or k == "lag" and v is not None} for t in h]
 
